@@ -305,6 +305,47 @@ def check_local_scores(case):
     return F.result()
 
 
+def check_default_states(case):
+    """scorers built without (or with a partial, shared) state_names dict: the states of an undeclared variable are the values observed
+    in the scorer's OWN data - also for Categorical columns that carry an unused category - and the caller's dict is left alone."""
+    import pandas as pd
+    import pgmpy.estimators as E
+
+    _quiet()
+    cols, ess = case["cols"], case["ess"]
+    df = make_df(case)
+    obs = {c: sorted({r[i] for r in case["rows"]}) for i, c in enumerate(cols)}
+    # a Categorical column with a level that does not occur in the rows (as after filtering a bigger frame)
+    c0 = cols[0]
+    df2 = df.copy()
+    df2[c0] = pd.Categorical(list(df[c0]), categories=list(obs[c0]) + (["__unused__"] if isinstance(obs[c0][0], str) else [max(obs[c0]) + 7]))
+    N = len(case["rows"])
+    for label, frame, kw in (("no state_names", df, {}), ("unused category", df2, {})):
+        for name in SCORERS:
+            sc = getattr(E, name)(frame, **({"equivalent_sample_size": ess} if name in ("BDeuScore", "BDsScore") else {}), **kw)
+            for v in cols:
+                for ps in ([], [c for c in cols if c != v][:1]):
+                    cfgs, T = count_table(case, obs, v, ps)
+                    got, exp = float(sc.local_score(v, list(ps))), closed_form(name, T, len(obs[v]), ess, N)
+                    if not (math.isfinite(got) and O.close(got, exp)):
+                        return {"key": f"default-states:{name}.local_score", "what": f"{label}: {name}.local_score({v!r},{ps}) = {got!r}, closed form on the observed "
+                                f"states {obs[v]} gives {exp!r}"}
+    # one partial dict handed to two scorers on different data
+    shared = {c0: list(obs[c0])}
+    snapshot = {k: list(v) for k, v in shared.items()}
+    half = case["rows"][: max(1, N // 2)]
+    a = E.K2Score(make_df(case, rows=half), state_names=shared)
+    b = E.K2Score(df, state_names=shared)
+    if shared != snapshot:
+        return {"key": "default-states:caller-dict-mutated", "what": f"the state_names dict passed by the caller changed from {snapshot} to {shared}"}
+    for v in cols[1:]:
+        cfgs, T = count_table(case, obs, v, [])
+        got, exp = float(b.local_score(v, [])), closed_form("K2Score", T, len(obs[v]), ess, N)
+        if not O.close(got, exp):
+            return {"key": "default-states:shared-dict", "what": f"second scorer built with the same partial state_names dict: K2 local_score({v!r},[]) = {got!r}, expected {exp!r}"}
+    return None
+
+
 def _model(edges, nodes, bn):
     from pgmpy.base import DAG
     from pgmpy.models import BayesianNetwork
@@ -460,6 +501,9 @@ def groups(tier):
         Group("local_scores", gen_frames, check_local_scores, nontrivial, engine="E3",
               bound=fr + "; every variable x every parent subset (size-2 subsets in both orders) x K2/BDeu/BDs/BIC/AIC vs closed forms on the "
                          "full r x q table; state_counts(reindex=False/True) vs naive counting; row shuffle + column reversal"),
+        Group("default_states", gen_frames_small, check_default_states, nontrivial, engine="E3",
+              bound="same frames as network_score: scorers built without state_names (plain and with a Categorical column carrying an unused "
+                    "level) and with one partial dict shared by two scorers on different data; local scores vs closed forms on the observed states"),
         Group("network_score", gen_frames_small, check_network_score, nontrivial, engine="E3",
               bound="1/8 (thorough 1/2) of the tiny frames + 24 (160) seeded frames; all 25 DAGs on 3 columns (40 sampled on 4) as DAG / "
                     "BayesianNetwork: score = sum local + prior for 5 scorers, structure_score wrapper, ScoreCache.score"),
